@@ -10,6 +10,7 @@
 -/
 import GormModel.Lemmas.Upsert
 import GormModel.Model.UpsertClause
+import GormModel.Lemmas.UpsertKeys
 namespace Gorm
 open Gorm.Upsert
 
@@ -1055,5 +1056,248 @@ theorem C16_save_omit_selected_counterexample :
     ((saveFrom c16OmitSelCfg c16SaveSchema c16SaveStore c16OmitAssoc (fun c => if c = 0 then 2 else 7)).store.rows 2).isSome = false ∧
     ((saveFrom genSaveCfg c16SaveSchema c16SaveStore c16OmitAssoc (fun c => if c = 0 then 2 else 7)).store.rows 2).isSome = true := by
   decide
+
+/-! ## round 3 — key shapes (composite / partly-zero keys) and the statement nested handles inherit -/
+
+section Keys
+open Gorm.UpsertK
+
+/-- the CURRENT tree: Save sends a value to Create as soon as ONE primary field is zero (regenerated shape of the loop:
+    one `range …PrimaryFields`, body = `if …isZero { return …Create().Execute(tx) }`, nothing after the loop) -/
+theorem C16_gen_save_key_test :
+    genKeyTest = .anyZero ∧ Gen.saveKeyLoopOver = "tx.Statement.Schema.PrimaryFields" := by
+  decide
+
+/-- "Save stores the full value whether or not its key already exists", composite keys: for a value whose key parts are
+    all non-zero, the table holds exactly that value under its key afterwards — whether the key was absent, live or
+    soft-deleted, with or without Unscoped. -/
+theorem C16_saveK_stores_value (us : Bool) (t : Tbl) (hw : Tbl.wf t) (v : KRow) (hz : hasZero v.key = false) :
+    (saveK .anyZero us t v).1.get v.key = some v ∧ (saveK .anyZero us t v).2 = false := by
+  unfold saveK
+  simp only [KeyTest.creates, hz, Bool.false_eq_true, if_false]
+  by_cases hc : updCount us t v.key = 0
+  · simp only [hc, if_true, and_true]
+    unfold upsertK
+    by_cases hh : t.has v.key = true
+    · simp only [hh, if_true]
+      rw [get_map _ (by intro r; by_cases e : (r.key == v.key) = true <;> simp_all) v.key t]
+      rw [has_eq_get] at hh
+      obtain ⟨r0, h0⟩ := Option.isSome_iff_exists.mp hh
+      simp [h0, get_key h0]
+    · have hh' : t.has v.key = false := by simpa using hh
+      simp only [hh', Bool.false_eq_true, if_false]
+      exact get_append_new t v hh'
+  · simp only [hc, if_false, and_true]
+    unfold updateAllK
+    rw [get_map _ (by intro r; by_cases e : updWhere us v.key r = true <;> simp [e]) v.key t]
+    -- some row satisfies the WHERE: it has the key of v (no zero part) and, keys being distinct, it is the row found
+    have hne : (t.filter (updWhere us v.key)) ≠ [] := by
+      intro e; apply hc; unfold updCount; rw [e]; rfl
+    obtain ⟨r1, hr1⟩ := List.exists_mem_of_ne_nil _ hne
+    obtain ⟨hm, hwh⟩ := List.mem_filter.mp hr1
+    have hk : r1.key = v.key := by
+      have := hwh
+      unfold updWhere at this
+      rw [pkCond_of_nonzero _ _ hz] at this
+      have := (Bool.and_eq_true _ _ ▸ this).1
+      exact (beq_iff_eq.mp this).symm
+    have hsome : (t.get v.key).isSome = true := by
+      rw [← has_eq_get]; unfold Tbl.has
+      exact List.any_eq_true.mpr ⟨r1, hm, by simp [hk]⟩
+    obtain ⟨r0, h0⟩ := Option.isSome_iff_exists.mp hsome
+    have e10 : r1 = r0 := wf_unique hw (by rw [hk]; exact h0) hm
+    subst e10
+    simp only [h0, Option.map_some, hwh, if_true]
+    cases v; simp_all
+
+/-- … and NO OTHER ROW changes — for every value, partly-zero keys included (those go to Create). -/
+theorem C16_saveK_frame (us : Bool) (t : Tbl) (v : KRow) (k : List Nat) (hk : k ≠ v.key) :
+    (saveK .anyZero us t v).1.get k = t.get k := by
+  unfold saveK
+  by_cases hz : hasZero v.key = true
+  · simp only [KeyTest.creates, hz, if_true]
+    unfold insertK
+    by_cases hh : t.has v.key = true
+    · simp [hh]
+    · have hh' : t.has v.key = false := by simpa using hh
+      simp only [hh', Bool.false_eq_true, if_false]
+      exact get_append_of_ne t v k hk
+  · have hz' : hasZero v.key = false := by simpa using hz
+    simp only [KeyTest.creates, hz', Bool.false_eq_true, if_false]
+    by_cases hc : updCount us t v.key = 0
+    · simp only [hc, if_true]
+      unfold upsertK
+      by_cases hh : t.has v.key = true
+      · simp only [hh, if_true]
+        rw [get_map _ (by intro r; by_cases e : (r.key == v.key) = true <;> simp_all) k t]
+        cases h0 : t.get k with
+        | none => rfl
+        | some r0 =>
+          have hne : r0.key ≠ v.key := by rw [get_key h0]; exact hk
+          simp [hne]
+      · have hh' : t.has v.key = false := by simpa using hh
+        simp only [hh', Bool.false_eq_true, if_false]
+        exact get_append_of_ne t v k hk
+    · simp only [hc, if_false]
+      unfold updateAllK
+      rw [get_map _ (by intro r; by_cases e : updWhere us v.key r = true <;> simp [e]) k t]
+      cases h0 : t.get k with
+      | none => rfl
+      | some r0 =>
+        have : updWhere us v.key r0 = false := by
+          unfold updWhere
+          rw [pkCond_of_nonzero _ _ hz', get_key h0]
+          have : (v.key == k) = false := by simpa using (fun e : v.key = k => hk e.symm)
+          simp [this]
+        simp [this]
+
+/-- a value with a zero key part whose key is absent is stored as it is (it goes to Create) -/
+theorem C16_saveK_zero_part_inserts (us : Bool) (t : Tbl) (v : KRow) (hz : hasZero v.key = true) (ha : t.has v.key = false) :
+    (saveK .anyZero us t v).1.get v.key = some v ∧ (saveK .anyZero us t v).2 = false := by
+  unfold saveK insertK
+  simp only [KeyTest.creates, hz, if_true, ha, Bool.false_eq_true, if_false, and_true]
+  exact get_append_new t v ha
+
+/-- what an "every part is zero" test would break: Save of (0,'bolt') with rows (1,'bolt') and (2,'bolt') present takes the
+    UPDATE path keyed by the non-zero part only — both rows are overwritten and (0,'bolt') is never written — while the
+    current test stores the value and leaves both rows alone -/
+def c16KeysTbl : Tbl := [{ key := [1, 7], pay := [1, 1], del := false }, { key := [2, 7], pay := [2, 2], del := false },
+  { key := [1, 8], pay := [3, 3], del := false }]
+def c16KeysVal : KRow := { key := [0, 7], pay := [9, 9], del := false }
+
+theorem C16_saveK_all_zero_counterexample :
+    (saveK .allZero false c16KeysTbl c16KeysVal).1.get [0, 7] = none ∧
+    ((saveK .allZero false c16KeysTbl c16KeysVal).1.get [1, 7]).map (·.pay) = some [9, 9] ∧
+    ((saveK .allZero false c16KeysTbl c16KeysVal).1.get [2, 7]).map (·.pay) = some [9, 9] ∧
+    (saveK genKeyTest false c16KeysTbl c16KeysVal).1.get [0, 7] = some c16KeysVal ∧
+    ((saveK genKeyTest false c16KeysTbl c16KeysVal).1.get [1, 7]).map (·.pay) = some [1, 1] := by
+  decide
+
+/-- the CURRENT tree: every nested finisher call of Save / FirstOrCreate runs on a handle derived from
+    `tx = db.getInstance()` by statement-keeping steps only (Model / Session without NewDB / Clauses): the nested UPDATE /
+    INSERT inherit the chain's conditions, Unscoped and Table -/
+theorem C16_gen_nested_handles :
+    genNestCfg = { foundKeeps := true, createKeeps := true, saveUpdKeeps := true, saveInsKeeps := true } ∧
+    (Gen.finisherSessionLits.filter (fun l => (l.1 == "DB.Save" || l.1 == "DB.FirstOrCreate" || l.1 == "DB.FirstOrInit") &&
+      l.2.2.contains "NewDB")) = [] := by
+  decide
+
+/-- "with Assign applied in both cases", FOUND branch, in the table the chain addresses — PARTIAL: the extra hypothesis
+    `hasZero dest.key = false` is the negation of finding F30's pattern. When the nested handle keeps the chain's statement,
+    the matched row — and only it — carries the assigned values afterwards, in the addressed table, whatever Unscoped /
+    Table / conditions the chain carries; the twin table is untouched. -/
+theorem C16_found_write_partial (cfg : NestCfg) (hk : cfg.foundKeeps = true) (st : MStmt) (w : World) (dest : KRow)
+    (assigns : List (Nat × Nat)) (hz : hasZero dest.key = false) (hne : dest.key ≠ [])
+    (hget : (w.tbl st.table).get dest.key = some dest) (hlive : live st.unscoped dest = true)
+    (hconds : holds st.conds dest = true) (hpay : ∀ a ∈ assigns, dest.key.length ≤ a.1) :
+    (foundWrite cfg st w dest assigns).2 = false ∧
+    ((foundWrite cfg st w dest assigns).1.tbl st.table).get dest.key = some (dest.setAll assigns) ∧
+    (∀ k, k ≠ dest.key → ((foundWrite cfg st w dest assigns).1.tbl st.table).get k = (w.tbl st.table).get k) ∧
+    (if st.table = 0 then (foundWrite cfg st w dest assigns).1.arch = w.arch
+      else (foundWrite cfg st w dest assigns).1.main = w.main) := by
+  have hb : foundBinds st dest ≠ 0 := by
+    unfold foundBinds
+    cases hd : dest.key with
+    | nil => exact absurd hd hne
+    | cons a rest =>
+      have ha : a ≠ 0 := by
+        intro h0; rw [hd] at hz; simp [hasZero, h0] at hz
+      simp [ha]
+  -- the rewrite is key-preserving on every row it touches
+  have hf : ∀ r : KRow, (if foundWhere st dest r then r.setAll assigns else r).key = r.key := by
+    intro r
+    by_cases e : foundWhere st dest r = true
+    · simp only [e, if_true]
+      apply setAll_key
+      intro a ha
+      have : r.key = dest.key := by
+        unfold foundWhere at e
+        rw [pkCond_of_nonzero _ _ hz] at e
+        simp only [Bool.and_eq_true, beq_iff_eq] at e
+        exact e.1.1.symm
+      rw [this]; exact hpay a ha
+    · simp [e]
+  have hset : ∀ t, (w.set st.table t).tbl st.table = t := by
+    intro t; unfold World.set World.tbl; by_cases h0 : st.table = 0 <;> simp [h0]
+  unfold foundWrite nest
+  simp only [hk, if_true, hb, if_false, hset]
+  refine ⟨trivial, ?_, ?_, ?_⟩
+  · rw [get_map _ hf dest.key, hget]
+    have : foundWhere st dest dest = true := by
+      unfold foundWhere
+      rw [pkCond_of_nonzero _ _ hz]; simp [hlive, hconds]
+    simp [this]
+  · intro k hkk
+    rw [get_map _ hf k]
+    cases h0 : (w.tbl st.table).get k with
+    | none => rfl
+    | some r0 =>
+      have : foundWhere st dest r0 = false := by
+        unfold foundWhere
+        rw [pkCond_of_nonzero _ _ hz, get_key h0]
+        have : (dest.key == k) = false := by simpa using (fun e : dest.key = k => hkk e.symm)
+        simp [this]
+      simp [this]
+  · unfold World.set; by_cases h0 : st.table = 0 <;> simp [h0]
+
+/-- what a nested handle that DROPS the chain's statement (`Session{NewDB: true}` in front of `Model(dest).Updates`) would
+    break: (a) Unscoped + soft-deleted first match: the UPDATE gets `deleted_at IS NULL` back, the stored row keeps its old
+    value; (b) Table(twin): the UPDATE goes to the model's own table and rewrites the unrelated row with the same key there.
+    With the current tree's facts both writes land on the matched row. -/
+def c16NewDBCfg : NestCfg := { foundKeeps := false, createKeeps := true, saveUpdKeeps := true, saveInsKeeps := true }
+def c16NestWorld : World :=
+  { main := [{ key := [1, 7], pay := [1, 1], del := true }, { key := [2, 7], pay := [2, 2], del := false }],
+    arch := [{ key := [2, 7], pay := [5, 5], del := false }] }
+
+theorem C16_found_write_newdb_counterexample :
+    let us : MStmt := { conds := [], unscoped := true, table := 0 }
+    let ar : MStmt := { conds := [], unscoped := false, table := 1 }
+    let d1 : KRow := { key := [1, 7], pay := [1, 1], del := true }
+    let d2 : KRow := { key := [2, 7], pay := [5, 5], del := false }
+    (((foundWrite c16NewDBCfg us c16NestWorld d1 [(3, 9)]).1.main.get [1, 7]).map (·.pay) = some [1, 1]) ∧
+    (((foundWrite genNestCfg us c16NestWorld d1 [(3, 9)]).1.main.get [1, 7]).map (·.pay) = some [1, 9]) ∧
+    (((foundWrite c16NewDBCfg ar c16NestWorld d2 [(3, 9)]).1.main.get [2, 7]).map (·.pay) = some [2, 9]) ∧
+    (((foundWrite c16NewDBCfg ar c16NestWorld d2 [(3, 9)]).1.arch.get [2, 7]).map (·.pay) = some [5, 5]) ∧
+    (((foundWrite genNestCfg ar c16NestWorld d2 [(3, 9)]).1.arch.get [2, 7]).map (·.pay) = some [5, 9]) ∧
+    ((foundWrite genNestCfg ar c16NestWorld d2 [(3, 9)]).1.main = c16NestWorld.main) := by
+  decide
+
+/-- finding F30 (unchanged tree): the matched record (0,'k7') has a zero key part; the nested UPDATE is keyed by the non-zero
+    part only and rewrites (1,'k7') and (2,'k7') as well — FirstOrCreate wrote three rows -/
+theorem C16_found_write_counterexample :
+    let st : MStmt := { conds := [(1, 7)], unscoped := false, table := 0 }
+    let w : World := { main := [{ key := [0, 7], pay := [1, 1], del := false }, { key := [1, 7], pay := [2, 2], del := false },
+                                { key := [2, 7], pay := [3, 3], del := false }], arch := [] }
+    firstMatchK st [(1, 7)] w = some { key := [0, 7], pay := [1, 1], del := false } ∧
+    ((firstOrCreateK genNestCfg 2 2 st [(1, 7)] [] [] [(3, 5)] none w).world.main.map (·.pay)) = [[1, 5], [2, 5], [3, 5]] := by
+  decide
+
+/-- FirstOrInit never writes, whatever the chain carries -/
+theorem C16_firstOrInitK_never_writes (nk np : Nat) (st : MStmt) (q b at_ as_ : List (Nat × Nat)) (w : World) :
+    (firstOrInitK nk np st q b at_ as_ w).world = w := by
+  unfold firstOrInitK; cases firstMatchK st q w <;> rfl
+
+/-- not-found branch: the record built from the conditions, Attrs, then Assign is inserted into the table the chain
+    addresses (when the nested Create keeps the chain's statement) and the twin table is untouched -/
+theorem C16_not_found_creates_in_addressed_table (cfg : NestCfg) (hk : cfg.createKeeps = true) (nk np : Nat) (st : MStmt)
+    (q b at_ as_ : List (Nat × Nat)) (w : World) (hm : firstMatchK st q w = none)
+    (hfree : (w.tbl st.table).has (builtK nk np b at_ as_).key = false) :
+    (firstOrCreateK cfg nk np st q b at_ as_ none w).err = .ok ∧
+    ((firstOrCreateK cfg nk np st q b at_ as_ none w).world.tbl st.table).get (builtK nk np b at_ as_).key
+      = some (builtK nk np b at_ as_) ∧
+    (firstOrCreateK cfg nk np st q b at_ as_ none w).val = builtK nk np b at_ as_ ∧
+    (if st.table = 0 then (firstOrCreateK cfg nk np st q b at_ as_ none w).world.arch = w.arch
+      else (firstOrCreateK cfg nk np st q b at_ as_ none w).world.main = w.main) := by
+  have hset : ∀ t, (w.set st.table t).tbl st.table = t := by
+    intro t; unfold World.set World.tbl; by_cases h0 : st.table = 0 <;> simp [h0]
+  unfold firstOrCreateK
+  simp only [hm, assignKey, nest, hk, if_true, insertK, hfree, Bool.false_eq_true, if_false, hset]
+  refine ⟨trivial, get_append_new _ _ hfree, trivial, ?_⟩
+  unfold World.set; by_cases h0 : st.table = 0 <;> simp [h0]
+
+example : Tbl.wf c16KeysTbl ∧ hasZero ([1, 7] : List Nat) = false :=
+  ⟨⟨by decide, by decide, by decide, trivial⟩, by decide⟩
+
+end Keys
 
 end Gorm
